@@ -16,14 +16,18 @@ CHART_FUEL = 200
 TABLES = {"LALR": parglare.LALR, "SLR": parglare.SLR}
 
 
-def corpus_specs(name="parsing"):
-    """Minimised past failures and witnesses of recorded findings; always run first."""
+def corpus_specs(name="parsing", late=False):
+    """Minimised past failures and witnesses of recorded findings; always run first. Entries marked
+    `late` were added after fingerprints of deterministic scopes had been recorded by position: they are
+    appended at the end of the deterministic scope so that the positions of the older members stay."""
     import json, os
     from common import VERIF
     path = os.path.join(VERIF, "corpus", name + ".json")
     out = []
     if os.path.exists(path):
         for e in json.load(open(path)):
+            if bool(e.get("late")) != late:
+                continue
             s = gen.GSpec.from_json(e["spec"])
             s.exhaustive = True
             s.corpus_inputs = e["inputs"]
@@ -44,6 +48,10 @@ def small_specs(tier, rng, allow_cyclic=True, overlap_rate=3, nrand_quick=120, n
         specs.extend(gen.chain_family(depth=2, sizes=(3, 4), limit=(chains_quick if tier == "quick" else chains_thorough)))
     if fixed:
         specs.extend(gen.fixed_stream(fixed_quick if tier == "quick" else fixed_thorough))
+    # later additions to the deterministic scope go last (see corpus_specs)
+    specs.extend(s for s in corpus_specs(late=True) if allow_cyclic or not gen.is_cyclic(s.rules, s.nonterminals()))
+    if chains:
+        specs.extend(gen.juxta_family(stride=(6 if tier == "quick" else 1)))
     n_exh = len(specs)
     for s in specs:
         s.exhaustive = True     # deterministic (seed-independent) scope
